@@ -1,5 +1,5 @@
 (* C17 — grafana.net route: retry until acknowledged, series order kept, shutdown drains. *)
-From CRNG Require Import Base.ListX Base.Bytes Model.GrafanaNet Proofs.GrafanaNetProofs.
+From CRNG Require Import Base.ListX Base.Bytes Model.GrafanaNet Proofs.GrafanaNetProofs Proofs.ShardProofs.
 Local Open Scope nat_scope.
 
 (* a flush posts the same body until the first 2xx: the attempts are failures followed by exactly one
@@ -49,3 +49,27 @@ Theorem C17_shutdown_drains :
     w_done A w' = true /\ w_queue A w' = [] /\ w_batch A w' = [] /\ acked A w' = total A w.
 Proof. exact shutdown_drains. Qed.
 Print Assumptions C17_shutdown_drains.
+
+Local Open Scope N_scope.
+(* "The points of one series": a series is a name plus a SET of tags.  Dispatch (as repaired, 5b94d75) picks the worker from the
+   sum of the fnv32a hashes of the name and of each tag, so the same series, its tags listed in any order, is queued to the same
+   worker — whose queue, batches and posts keep the order (C17_series_order).  For a name without tags it is the fnv32a hash of
+   the name, as before.  (It used to be the hash of the text as sent: with a concurrency that is not a power of two the same
+   series could be spread over several workers and its points acknowledged out of order.) *)
+Theorem C17_shard_independent_of_tag_order :
+  forall conc name tags tags',
+    no_sep name -> Forall no_sep tags -> Permutation.Permutation tags tags' ->
+    shard_of conc (join [59] (name :: tags)) = shard_of conc (join [59] (name :: tags')).
+Proof. exact shard_tag_order. Qed.
+Print Assumptions C17_shard_independent_of_tag_order.
+
+Theorem C17_shard_of_untagged_name :
+  forall conc name, no_sep name -> shard_of conc name = (Lib.Fnv.fnv32a name mod conc).
+Proof. exact shard_untagged. Qed.
+Print Assumptions C17_shard_of_untagged_name.
+
+Example C17_shard_example :
+  (* a.b;x=1;y=2 and a.b;y=2;x=1 with the default concurrency of 100 *)
+  shard_of 100 [97;46;98;59;120;61;49;59;121;61;50] = shard_of 100 [97;46;98;59;121;61;50;59;120;61;49]
+  /\ Lib.Fnv.fnv32a [97;46;98;59;120;61;49;59;121;61;50] mod 100 <> Lib.Fnv.fnv32a [97;46;98;59;121;61;50;59;120;61;49] mod 100.
+Proof. vm_compute. split; [reflexivity | discriminate]. Qed.
